@@ -221,6 +221,16 @@ func diagWorker(req N) (resp N) {
 			events = append(events, ev)
 		}
 	}
+	// a COMPILE error inside the braces of a template string, on a line below a short first line: the position
+	// is one of the whole source (the expressions between the braces are parsed on their own)
+	scoped := []string{"zq := 'val {1 + undefq} end'", "print('{ func() { return [1, 2, undefq] }() }')", "mq := {\"k\": 'a{ 1 }b{ undefq }'}",
+		"fq := func() {\n\treturn '{ '{ undefq }' }'\n}", "const cq = 1\nyq := '{ func() { cq = 2 }() }'"}
+	if n := int(req["n"].(float64)); n > 0 {
+		b := scoped[rnd.Intn(len(scoped))]
+		if ev := diagnose("\n\n\t" + b + "\n"); ev != nil {
+			events = append(events, ev)
+		}
+	}
 	if n := int(req["n"].(float64)); n > 0 {
 		t := tails[rnd.Intn(len(tails))]
 		base := r.Source()
